@@ -16,8 +16,61 @@ def run(rep, prog, tier):
     rep.not_decided += ["the numeric value of any score (values)", "PhrasePrefixQuery passes `searcher` where its siblings pass `statistics_provider` (only visible under search_with_statistics_provider; observation)"]
     r1(rep, prog)
     r2(rep, prog)
+    r4(rep, prog)
     tab = ct.const_int_array(prog, "tantivy::fieldnorm::code::FIELD_NORMS_TABLE")
     rep.check(tab is not None and len(tab) == 256 and all(tab[i] > tab[i - 1] for i in range(1, 256)) and tab[0] == 0, "C12-R3", "FIELD_NORMS_TABLE is a strictly increasing 256-entry table", "quantisation is order preserving", "FIELD_NORMS_TABLE is not a strictly increasing 256-entry table starting at 0")
+
+
+def r4(rep, prog):
+    """every place that evaluates the BM25 formula: the weight and the field-length byte must
+    belong to the same scorer / field; the set of such places is frozen with per-function counts"""
+    R = "C12-R4"
+    rep.rule(R, "who evaluates BM25: the call sites of Bm25Weight::score are a frozen table (function -> count); where the weight is taken from a scorer (bm25_weight() / similarity_weight), the fieldnorm id comes from the same scorer's own fieldnorm reader")
+    TABLE = {
+        "<tantivy::query::term_query::term_scorer::TermScorer as tantivy::query::scorer::Scorer>::score": (1, "the scorer's own weight, fieldnorm_id() and term_freq()"),
+        "<tantivy::query::phrase_query::phrase_scorer::PhraseScorer<TPostings> as tantivy::query::scorer::Scorer>::score": (1, "phrase scorer: own weight, own fieldnorm reader, phrase count as tf"),
+        B + "explain": (1, "C12-R2"),
+        B + "max_score": (1, "upper bound with fieldnorm id 255 / max tf"),
+        "tantivy::postings::skip::SkipReader::block_max_score": (1, "block-max metadata of the posting list being read"),
+        "tantivy::postings::block_segment_postings::BlockSegmentPostings::block_max_score::{closure#0}": (1, "exact block max over the decoded block of this posting list"),
+        "tantivy::query::boolean_query::block_wand_intersection::block_wand_intersection": (1, "leader clause only: weight and fieldnorm reader are both taken from `leader`; secondaries go through TermScorer::score"),
+    }
+    sites_ = prog.who_calls({B + "score"})
+    per = {}
+    for b, bi, t in sites_:
+        per.setdefault(b.id, []).append((b, bi, t))
+    for c, lst in sorted(per.items()):
+        b, bi, t = lst[0]
+        if c not in TABLE:
+            rep.fail(R, "Bm25Weight::score is evaluated in %s" % short(c), "`%s` evaluates the BM25 formula but is not in the table: which scorer's weight and which field's length does it combine?" % c, site=site(b, bi))
+            continue
+        cnt, why = TABLE[c]
+        rep.check(len(lst) <= cnt, R, "BM25 evaluation in %s" % short(c), "%d site(s): %s" % (len(lst), why),
+                  "`%s` evaluates Bm25Weight::score at %d sites, the table has %d: a new evaluation must use the weight and the fieldnorm reader of the same scorer" % (c, len(lst), cnt), site=site(b, bi))
+    for c in TABLE:
+        if c not in per:
+            rep.fail(R, "stale table entry %s" % short(c), "listed BM25 evaluation site no longer exists: re-confirm the table")
+    # block_wand_intersection: both ingredients of the leader evaluation come from `leader`
+    fid = "tantivy::query::boolean_query::block_wand_intersection::block_wand_intersection"
+    body = prog.body(fid)
+    if body is not None and fid in per:
+        b, bi, t = per[fid][0]
+        TS = "tantivy::query::term_query::term_scorer::TermScorer::"
+        w = trace_through(body, op_local(t["args"][0]), transparent=("core::clone::Clone::clone",) + tuple(prog.names(r"Deref::deref$")))
+        wsrc = [s for s in w if s[0] == "call" and s[1] == TS + "bm25_weight"]
+        f = trace_through(body, op_local(t["args"][1]))
+        fsrc = [s for s in f if s[0] == "call" and s[1].endswith("FieldNormReader::fieldnorm_id")]
+        same = False
+        if wsrc and fsrc:
+            wrecv = option_root(body, body.term(wsrc[0][2])["args"][0])
+            fr = body.term(fsrc[0][2])["args"][0]
+            frt = trace_through(body, op_local(fr), transparent=("core::clone::Clone::clone",) + tuple(prog.names(r"Deref::deref$")))
+            frc = [s for s in frt if s[0] == "call" and s[1] == TS + "fieldnorm_reader"]
+            if frc:
+                frecv = option_root(body, body.term(frc[0][2])["args"][0])
+                same = wrecv == frecv and wrecv[0] in ("param", "local")
+        rep.check(same, R, "block_wand_intersection: the leader's weight meets the leader's fieldnorm", "bm25_weight() and fieldnorm_reader() are taken from the same scorer",
+                  "in block_wand_intersection the Bm25Weight and the fieldnorm id given to score() do not provably come from the same scorer: a clause can be normalised with another field's length", site=site(b, bi))
 
 
 def r1(rep, prog):
